@@ -230,8 +230,10 @@ def ev(e, syms, dot, enc, errs=None):
                 # refused, not computed: the evaluation of the whole operand stops here
                 if errs is None:
                     raise EvalError("too-complex")
+                # recovery mode: the code gives up on the operand here, but constant sub-expressions to the right have
+                # been evaluated already (and the comparison in coqc looks at every sub-expression): go on size-checking
                 errs.append("too-complex")
-                raise Refused()
+                n = 0
             if n > 200:
                 raise TooBig()      # also past a reported error: the code (and the model in coqc) goes on computing
             if left:
